@@ -739,5 +739,5 @@ def run(ctx, tier):
             '(counted), therefore every public store of a caller-supplied page size is dominated by a divisibility test against the alignment of Page whose failing edge does not return '
             '("every value the builder accepts must work or be refused cleanly"); (O6) the strict-mode check runs after all data writes, growth and remap and before the header write, '
             'only under the strict_mode flag; (grow) the growth decision compares the file length with num_pages*pagesize after the final high-water mark is known, the new size derives '
-            'from both, and the transaction\'s Pages are replaced from the new map behind the success edge; (no-pow2-arith) no mask / shift arithmetic is applied to a page size and no page size is used as an alignment (the builder accepts non-powers of two); (reload) the persisted free list is loaded in full, not cut to a page-size dependent length.'),
+            'from both, and the transaction\'s Pages are replaced from the new map behind the success edge; (no-pow2-arith) no mask / shift arithmetic is applied to a page size and no page size is used as an alignment (the builder accepts non-powers of two); (reload) the persisted free list is loaded in full, not cut to a page-size dependent length. (check-counts-runs) the built-in check accounts for overflow pages independently of the page kind; (map-whole-file) an explicit map length is always the file\'s own length.'),
         assumptions=['the OS page size used by the default options is a multiple of 8'])
